@@ -492,7 +492,7 @@ impl Monitor for C12 {
     }
     fn streams(&self, tier: Tier, budget: f64) -> Vec<Stream> {
         let (a, b) = match tier {
-            Tier::Quick => (40_000, 6_000),
+            Tier::Quick => (300_000, 40_000),
             Tier::Thorough => (2_000_000, 300_000),
         };
         vec![Stream::new("clone-then-mutate", scaled(a, budget)), Stream::new("xot-clone", scaled(b, budget)), Stream::new("clone-with-prefixes-layouts", scaled(b, budget))]
